@@ -1,5 +1,5 @@
 #!/bin/bash
-# tools/seedregress.sh [log] — re-run, for every recorded seeded change, the check(s) named in its
+# [REGRESS_CHECKS=..] [REGRESS_SEEDS=..] tools/seedregress.sh [log] — re-run, for every recorded seeded change, the check(s) named in its
 # meta.json caught_by against the change applied to /repo (always reverted), and report whether it
 # is still reported. Needs exclusive use of /repo's working tree.
 log=${1:-/verif/.work/seedregress.log}
@@ -20,6 +20,13 @@ for x in re.findall(r'(C\d\d) (?:quick|thorough)',c):
 print(' '.join(ids[:2]))
 PY
 )
+  # REGRESS_CHECKS="C04 C08": only seeds whose first recorded check is one of these; REGRESS_SEEDS="C07-w4m2 ...": these seeds whatever their check
+  first=${ids%% *}
+  if [ -n "${REGRESS_CHECKS:-}${REGRESS_SEEDS:-}" ]; then
+    case " ${REGRESS_SEEDS:-} " in *" $id "*) ;; *)
+      case " ${REGRESS_CHECKS:-} " in *" $first "*) ;; *) continue;; esac;;
+    esac
+  fi
   if [ -z "$ids" ]; then echo "$id SKIP (not applicable / not caught by record)" >> "$log"; continue; fi
   if ! git -C /repo apply --check "$d/patch.diff" 2>/dev/null; then echo "$id NOAPPLY (patch no longer applies to the repaired tree)" >> "$log"; continue; fi
   git -C /repo apply "$d/patch.diff"
